@@ -359,9 +359,11 @@ impl World {
                     j ^= 1;
                 }
                 let Some(id) = self.dialing[p].front().copied() else { return };
-                if r == "fail" {
+                if r == "fail" || r == "denyp" {
                     self.dialing[p].pop_front();
-                    let err = DialError::Transport(vec![]);
+                    // "denyp": another behaviour denied the dial at the PENDING stage (handle_pending_outbound_connection),
+                    // i.e. before any handler exists (seeded mutant C45-1)
+                    let err = if r == "denyp" { DialError::Denied { cause: ConnectionDenied::new(io::Error::other("denied at the pending stage")) } } else { DialError::Transport(vec![]) };
                     self.evs.push(json!({"e": "dial_failed", "p": p}));
                     self.beh.on_swarm_event(FromSwarm::DialFailure(DialFailure { peer_id: Some(self.peers[p]), error: &err, connection_id: id }));
                 } else {
@@ -559,7 +561,7 @@ fn random_sched(rng: &mut impl Rng, deny: bool) -> Value {
         let op = if x < 20 {
             json!({"a": "send", "p": p})
         } else if x < 32 {
-            let r = if deny { pick(rng, &["ok", "ok", "ok", "ok", "fail", "deny"]) } else { pick(rng, &["ok", "ok", "ok", "fail"]) };
+            let r = if deny { pick(rng, &["ok", "ok", "ok", "ok", "fail", "deny", "denyp"]) } else { pick(rng, &["ok", "ok", "ok", "fail"]) };
             json!({"a": "dial", "p": if rng.gen_bool(0.8) { -1 } else { p as i64 }, "j": j, "r": r})
         } else if x < 37 {
             let r = if deny { pick(rng, &["ok", "ok", "ok", "deny"]) } else { "ok".to_string() };
@@ -610,6 +612,7 @@ pub fn main(a: &vcommon::Args) {
                 json!({"a": "dial", "p": -1, "j": 0, "r": "ok"}),
                 json!({"a": "dial", "p": -1, "j": 0, "r": "fail"}),
                 json!({"a": "dial", "p": -1, "j": 0, "r": "deny"}),
+                json!({"a": "dial", "p": -1, "j": 0, "r": "denyp"}),
                 json!({"a": "inconn", "p": 0, "j": 1, "r": "ok"}),
                 json!({"a": "inconn", "p": 0, "j": 1, "r": "deny"}),
                 json!({"a": "neg", "c": -1, "i": 0, "r": "ok"}),
